@@ -89,7 +89,7 @@ impl<'a, W: fmt::Write> JsTopScopeWriter<W> {
 
     pub(crate) fn align<WW: fmt::Write>(&mut self, w: &JsFunctionScopeWriter<'a, WW>) {
         #[cfg(glass_easel_verif)]
-        verif::trace("A", "");
+        verif::trace("A", &format!("{} {}", w.get_block().ident_id_inc, w.get_block().private_ident_id_inc));
         self.block.align(w.get_block());
     }
 
@@ -191,7 +191,7 @@ impl<'a, W: fmt::Write> JsFunctionArgsAssigner<'a, W> {
 
     pub(crate) fn gen_ident(&mut self) -> JsIdent {
         #[cfg(glass_easel_verif)]
-        verif::trace("g", "");
+        verif::trace("g", &self.get_block_mut().ident_id_inc.to_string());
         let block = self.get_block_mut();
         JsIdent {
             name: next_var_name(&mut block.ident_id_inc),
@@ -267,7 +267,7 @@ impl<'a, W: fmt::Write> JsFunctionScopeWriter<'a, W> {
 
     pub(crate) fn gen_ident(&mut self) -> JsIdent {
         #[cfg(glass_easel_verif)]
-        verif::trace("g", "");
+        verif::trace("g", &self.get_block_mut().ident_id_inc.to_string());
         let block = self.get_block_mut();
         JsIdent {
             name: next_var_name(&mut block.ident_id_inc),
@@ -276,7 +276,7 @@ impl<'a, W: fmt::Write> JsFunctionScopeWriter<'a, W> {
 
     pub(crate) fn gen_private_ident(&mut self) -> JsIdent {
         #[cfg(glass_easel_verif)]
-        verif::trace("p", "");
+        verif::trace("p", &self.get_block_mut().private_ident_id_inc.to_string());
         let block = self.get_block_mut();
         let var_id = block.private_ident_id_inc;
         block.private_ident_id_inc += 1;
@@ -350,7 +350,7 @@ impl<'a, W: fmt::Write> JsFunctionScopeWriter<'a, W> {
 
     pub(crate) fn declare_var_on_top_scope(&mut self) -> Result<JsIdent, TmplError> {
         #[cfg(glass_easel_verif)]
-        verif::trace("d", "");
+        verif::trace("d", &self.top_scope.block.ident_id_inc.to_string());
         let block = &mut self.top_scope.block;
         let ident = JsIdent {
             name: next_var_name(&mut block.ident_id_inc),
@@ -364,7 +364,7 @@ impl<'a, W: fmt::Write> JsFunctionScopeWriter<'a, W> {
         init: impl FnOnce(&mut JsExprWriter<W>, JsIdent) -> Result<R, TmplError>,
     ) -> Result<R, TmplError> {
         #[cfg(glass_easel_verif)]
-        let _verif_scope = verif::Scope::new("di", "");
+        let _verif_scope = verif::Scope::new("di", &self.top_scope.block.ident_id_inc.to_string());
         let block = &mut self.top_scope.block;
         let var_name = next_var_name(&mut block.ident_id_inc);
         let ident = JsIdent {
@@ -494,7 +494,7 @@ impl<'a, W: fmt::Write> JsExprWriter<'a, W> {
     #[allow(dead_code)]
     pub(crate) fn declare_var_on_top_scope(&mut self) -> Result<JsIdent, TmplError> {
         #[cfg(glass_easel_verif)]
-        verif::trace("d", "");
+        verif::trace("d", &self.top_scope.block.ident_id_inc.to_string());
         let block = &mut self.top_scope.block;
         let ident = JsIdent {
             name: next_var_name(&mut block.ident_id_inc),
